@@ -410,6 +410,93 @@ pub fn run(ctx: &Ctx) -> Report {
         });
         rep.merge(r);
     }
+    // ---- the shim returns its own error in the MIDDLE of a response (after a header, after rows, inside
+    //      a row, between chained sets), as `?` does: the writers it still holds are dropped, which may
+    //      write. run_on must return exactly that error, and nothing pipelined behind is served.
+    {
+        let n = if ctx.miri { 3 } else { ctx.n(1500, 40_000) };
+        let r = par_cases(ctx, "C19", "shim-error-mid-response", n, |rng, i, rep| {
+            let bin = rng.bool();
+            let nc = rng.range(1, 4) as usize;
+            let columns = cols(nc, bin);
+            let token = 9000 + rng.below(1000);
+            let mut ops = Vec::new();
+            let pre = rng.below(3);
+            for k in 0..pre {
+                if rng.bool() {
+                    ops.push(QOp::CompleteOne(k, k + 1));
+                } else {
+                    ops.push(QOp::Start(0));
+                    ops.push(QOp::Row((0..nc).map(|c| Cell::val(V::I32(c as i32))).collect(), RowForm::Owned));
+                    ops.push(QOp::FinishOne);
+                }
+            }
+            let place = rng.below(5);
+            let pname = match place {
+                0 => "before anything was written",
+                1 => {
+                    ops.push(QOp::Start(0));
+                    "after the resultset header"
+                }
+                2 => {
+                    ops.push(QOp::Start(0));
+                    for r in 0..rng.range(1, 5) {
+                        ops.push(QOp::Row((0..nc).map(|c| Cell::val(V::I32((r * 10) as i32 + c as i32))).collect(), RowForm::Borrowed));
+                    }
+                    "after complete rows"
+                }
+                3 => {
+                    ops.push(QOp::Start(0));
+                    ops.push(QOp::Row((0..nc).map(|c| Cell::val(V::I32(c as i32))).collect(), RowForm::Owned));
+                    for c in 0..rng.range(1, nc as u64) as usize {
+                        ops.push(QOp::Col(Cell::val(V::I32(100 + c as i32))));
+                    }
+                    "inside a row"
+                }
+                _ => {
+                    ops.push(QOp::Start(0));
+                    ops.push(QOp::FinishOne);
+                    "between chained sets"
+                }
+            };
+            ops.push(QOp::Bail(token));
+            let prog = QProg { colsets: vec![columns.clone()], ops, on_err: OnErr::Drop };
+            let mut cmds = vec![Cmd::prepare(b"p"), Cmd::ping()];
+            let mut scripts = vec![Script::PrepOk { id: 1, params: vec![], cols: columns.clone() }];
+            cmds.push(if bin { Cmd::execute(1, &[], false) } else { Cmd::query(b"q") });
+            scripts.push(Script::Q(prog));
+            // pipelined behind it
+            cmds.push(Cmd::query(b"never"));
+            scripts.push(Script::Q(QProg::completed(0, 0)));
+            cmds.push(Cmd::ping());
+            let mut case = Case::new(cmds, scripts);
+            vary_transport(rng, &mut case);
+            let obs = run_case(&case);
+            rep.evaluations += 1;
+            if harness_panic(&obs, rep) {
+                return;
+            }
+            rep.counters.inc("shim_errors_injected");
+            rep.counters.class(format!("shim error {} ({} sets before, {})", pname, pre, if bin { "binary" } else { "text" }));
+            let d = || J::obj().set("fault", format!("the callback returns the shim's error {}", pname)).set("mode", if bin { "binary" } else { "text" }).set("completed_sets_before", pre).set("outcome", obs.outcome.describe());
+            if i < 1 {
+                rep.sample(d());
+            }
+            if obs.outcome != Outcome::Token(token) {
+                let sig = if let Outcome::Panic { file, line, msg } = &obs.outcome { format!("C19 shim-error-mid-response {}", panic_signature(file, *line, msg)) } else { format!("C19 shim-error-not-returned {}", pname) };
+                rep.violations.push(viol("C19", sig, format!("the callback returned the shim's error {} ({}), run_on returned {}", token, pname, obs.outcome.describe()), d()));
+                return;
+            }
+            let served = obs.log.cbs.iter().filter(|c| matches!(c.kind, CbKind::Query(_) | CbKind::Execute { .. })).count();
+            if served != 1 {
+                rep.violations.push(viol("C19", "C19 callback-after-shim-error".into(), format!("{} query/execute callbacks although the first one failed", served), d()));
+                return;
+            }
+            rep.counters.inc("shim_errors_mid_response_returned_unchanged");
+        });
+        rep.merge(r);
+    }
+
     // ---- a TLS connection whose byte stream ends (no close_notify): inside the SSLRequest, inside a
     //      record of the TLS handshake, inside a record that carries the handshake response or a
     //      command. A stream that ends inside a TLS record ended inside a packet (or before the
